@@ -5,6 +5,7 @@
 import SuironVerif.Model.Codec
 import SuironVerif.Model.Native
 import SuironVerif.Spec.Machine
+import SuironVerif.Model.Solve
 namespace Suiron.Driver
 open Suiron.Codec
 
@@ -108,6 +109,133 @@ def handleEngine (toks : List String) : String :=
         | none => "decode-error"
       | _ => "decode-error query"
     | _, _, _ => "decode-error"
+  | _ => "decode-error"
+
+/-! timer histories (mirror of harness/src/suite_timer.rs) -/
+
+inductive TOp where
+  | run (api : String) (fire : Nat) (query : List Term)
+  | new (h : Nat) (query : List Term)
+  | next (h : Nat)
+
+def decOps : Nat → List String → Option (List TOp × List String)
+  | 0, r => some ([], r)
+  | k+1, "RUN" :: api :: fire :: nq :: rest => do
+    let f ← fire.toNat?
+    let n ← nq.toNat?
+    let (q, r1) ← decTerm.decTerms n rest
+    let (ops, r2) ← decOps k r1
+    pure (.run api f q :: ops, r2)
+  | k+1, "NEW" :: h :: nq :: rest => do
+    let hh ← h.toNat?
+    let n ← nq.toNat?
+    let (q, r1) ← decTerm.decTerms n rest
+    let (ops, r2) ← decOps k r1
+    pure (.new hh q :: ops, r2)
+  | k+1, "NEXT" :: h :: rest => do
+    let hh ← h.toNat?
+    let (ops, r2) ← decOps k rest
+    pure (.next hh :: ops, r2)
+  | _, _ => none
+
+def arm (g : G) (fire : Nat) : G := { g with ticks := 0, fireAt := if fire == 0 then none else some fire }
+
+/-- `make_query` + `make_base_node` on the current global state. -/
+def buildQuery (kb : KB) (g : G) (query : List Term) : Option (Term × Node × G) :=
+  match makeQuery query with
+  | .ok (.call q, c) =>
+    let g0 : G := { g with counter := c, stop := false }
+    match mkNode Native.showF64 kb (.call q) [] g0 with
+    | .ok (node, g1) => some (q, node, g1)
+    | _ => none
+  | _ => none
+
+def MAXC : Nat := 30
+
+partial def runN (kb : KB) (q : Term) (node : Node) (g : G) (fire calls : Nat) (acc : List String) : List String × G :=
+  if calls == 0 then (acc.reverse, g) else
+  match next Native.ops kb FUEL node (arm g fire) with
+  | .ok st =>
+    let g2 := arm st.g 0
+    let o := hex (newOut g.out st.g.out)
+    match st.sol with
+    | none => ((("none O " ++ o) :: acc).reverse, g2)
+    | some σ =>
+      if !acyclicSubst σ then (("CYCLIC" :: acc).reverse, g2) else
+      let a := match resolve FUEL σ q with | .ok t => encTerm t | _ => "panic"
+      runN kb q st.node g2 fire (calls - 1) (("A " ++ a ++ " O " ++ o) :: acc)
+  | _ => (("P" :: acc).reverse, g)
+
+partial def runS (kb : KB) (q : Term) (node : Node) (g : G) (fire calls : Nat) (acc : List String) : List String × G :=
+  if calls == 0 then (acc.reverse, g) else
+  let ga := arm g fire
+  match solve Native.ops kb FUEL q node ga ga.fireAt with
+  | .ok (s, node', g1) =>
+    let g2 := arm g1 0
+    let o := hex (newOut g.out g1.out)
+    let acc := ("S " ++ hex s ++ " O " ++ o) :: acc
+    if s == noMore || s == timeoutMsg then (acc.reverse, g2) else runS kb q node' g2 fire (calls - 1) acc
+  | _ => (("P" :: acc).reverse, g)
+
+def runA (kb : KB) (q : Term) (node : Node) (g : G) (fire : Nat) : String × G :=
+  let ga := arm g fire
+  match solveAll Native.ops kb FUEL 100000 q node ga ga.fireAt with
+  | .ok (v, _, g1) =>
+    ("ALL " ++ toString v.length ++ String.join (v.map fun s => " " ++ hex s) ++ " O " ++ hex (newOut g.out g1.out), arm g1 0)
+  | _ => ("P", g)
+
+partial def runOps (kb : KB) (ops : List TOp) (g : G) (hs : List (Nat × Term × Node)) (acc : List String) : List String :=
+  match ops with
+  | [] => acc.reverse
+  | .run api fire query :: rest =>
+    match buildQuery kb g query with
+    | none => ("P" :: acc).reverse
+    | some (q, node, g1) =>
+      if api == "N" then
+        let r := runN kb q node g1 fire MAXC []
+        if r.1.getLast? == some "P" then ("P" :: acc).reverse else runOps kb rest r.2 hs (String.intercalate " , " r.1 :: acc)
+      else if api == "S" then
+        let r := runS kb q node g1 fire MAXC []
+        if r.1.getLast? == some "P" then ("P" :: acc).reverse else runOps kb rest r.2 hs (String.intercalate " , " r.1 :: acc)
+      else
+        let r := runA kb q node g1 fire
+        if r.1 == "P" then ("P" :: acc).reverse else runOps kb rest r.2 hs (r.1 :: acc)
+  | .new h query :: rest =>
+    match buildQuery kb g query with
+    | none => ("P" :: acc).reverse
+    | some (q, node, g1) => runOps kb rest g1 ((h, q, node) :: hs.filter (fun x => x.1 != h)) ("new" :: acc)
+  | .next h :: rest =>
+    match hs.find? (fun x => x.1 == h) with
+    | none => runOps kb rest g hs ("nohandle" :: acc)
+    | some (_, q, node) =>
+      match next Native.ops kb FUEL node g with
+      | .ok st =>
+        let o := hex (newOut g.out st.g.out)
+        let hs' := (h, q, st.node) :: hs.filter (fun x => x.1 != h)
+        match st.sol with
+        | none => runOps kb rest st.g hs' (("none O " ++ o) :: acc)
+        | some σ =>
+          if !acyclicSubst σ then runOps kb rest st.g hs' ("CYCLIC" :: acc) else
+          let a := match resolve FUEL σ q with | .ok t => encTerm t | _ => "panic"
+          runOps kb rest st.g hs' (("A " ++ a ++ " O " ++ o) :: acc)
+      | _ => ("P" :: acc).reverse
+
+def handleTimer (toks : List String) : String :=
+  match toks with
+  | ["timer-real"] => "real"
+  | "RULES" :: nr :: rest =>
+    match nr.toNat? with
+    | some m =>
+      match decRules m rest with
+      | some (rules, "OPS" :: no :: rest2) =>
+        match no.toNat? with
+        | some k =>
+          match decOps k rest2, buildKB rules with
+          | some (ops, _), .ok kb => String.intercalate " ; " (runOps kb ops G.init [] [])
+          | _, _ => "decode-error ops"
+        | none => "decode-error"
+      | _ => "decode-error rules"
+    | none => "decode-error"
   | _ => "decode-error"
 
 def handleRename (toks : List String) : String :=
